@@ -114,99 +114,114 @@ func rowMapString(m map[string][]*big.Rat) string {
 
 func checkC12(w *Worker) {
 	w.appInit()
-	depth := 4
+	depth, freshDepth := 4, 2
 	if w.Tier == "thorough" {
 		depth = 5 // 10 blocks: 111110 histories per book
+		freshDepth = 3
 	}
 	blockText := make([]string, len(c12Blocks))
 	for i, b := range c12Blocks {
 		blockText[i] = renderLog(absLog{b})
 	}
-	cache := map[string]AppRun{}
-	w.Explore("append-histories", ExploreOpts{ShardDepth: 4}, func(x *Exec) {
-		bi := x.Choose(len(c07Books), "input:book")
-		k := 1 + x.Choose(depth, "input:length")
-		hist := make([]int, k)
-		for i := range hist {
-			hist[i] = x.Choose(len(c12Blocks), "event:append-block")
-		}
-		bookText := renderBook(c07Books[bi])
-		text := func(h []int) string {
-			s := ""
-			for _, b := range h {
-				s += blockText[b]
+	body := func(fresh bool, depth int) func(x *Exec) {
+		cache := map[string]AppRun{}
+		return func(x *Exec) {
+			bi := x.Choose(len(c07Books), "input:book")
+			k := 1 + x.Choose(depth, "input:length")
+			hist := make([]int, k)
+			for i := range hist {
+				hist[i] = x.Choose(len(c12Blocks), "event:append-block")
 			}
-			return s
-		}
-		run := func(cmd []string, h []int) AppRun {
-			key := fmt.Sprint(bi, cmd, h)
-			rc := appCase{Args: append([]string{"--no-color"}, cmd...), Files: map[string]string{"food.yaml": bookText, "log.yaml": text(h)}}
-			if r, ok := cache[key]; ok {
-				logRun(rc, r)
+			bookText := renderBook(c07Books[bi])
+			text := func(h []int) string {
+				s := ""
+				for _, b := range h {
+					s += blockText[b]
+				}
+				return s
+			}
+			run := func(cmd []string, h []int) AppRun {
+				key := fmt.Sprint(bi, cmd, h)
+				rc := appCase{Args: append([]string{"--no-color"}, cmd...), Files: map[string]string{"food.yaml": bookText, "log.yaml": text(h)}}
+				if r, ok := cache[key]; ok {
+					logRun(rc, r)
+					return r
+				}
+				var r AppRun
+				if fresh {
+					// one process of the un-instrumented binary per run: nothing a run leaves behind in memory can reach the next
+					br := x.w.runBin(rc, "")
+					r = AppRun{Stdout: br.Stdout, Failed: br.Code != 0, Err: firstLine(br.Stderr)}
+					logRun(rc, r)
+				} else {
+					r = runApp(rc)
+				}
+				if len(cache) < 300000 {
+					cache[key] = r
+				}
 				return r
 			}
-			r := runApp(rc)
-			if len(cache) < 300000 {
-				cache[key] = r
-			}
-			return r
-		}
-		H, b := hist[:k-1], hist[k-1:]
-		x.Case(fmt.Sprint(bi, hist), k >= 2)
-		edge := fmt.Sprintf("book %d, history %v + block %d", bi, H, b[0])
-		state := ""
-		for _, cmd := range c12PerDay {
-			whole, left, right := run(cmd, hist), run(cmd, H), run(cmd, b)
-			state += whole.Key()
-			name := strings.Join(cmd, " ")
-			if whole.Failed || left.Failed || right.Failed {
-				x.Violate("C12|"+name+"|failed", edge+": "+whole.String(), nil)
-				return
-			}
-			if whole.Stdout != left.Stdout+right.Stdout {
-				x.Violate("C12|"+name+"|not-concatenation", fmt.Sprintf("%s\n`%s` on the concatenated log:\n%s\non the history alone:\n%s\non the appended block alone:\n%s\nlog:\n%s", edge, name, whole.Stdout, left.Stdout, right.Stdout, text(hist)),
-					map[string]interface{}{"book": bookText, "log": text(hist), "history": H, "block": b[0], "cmd": name})
-				return
-			}
-		}
-		canon := ""
-		for _, cmd := range c12Period {
-			whole, left, right := run(cmd, hist), run(cmd, H), run(cmd, b)
-			name := strings.Join(cmd, " ")
-			if whole.Failed || left.Failed || right.Failed {
-				x.Violate("C12|"+name+"|failed", edge+": "+whole.String(), nil)
-				return
-			}
-			mw, e1 := periodRowMap(cmd, whole.Stdout)
-			ml, e2 := periodRowMap(cmd, left.Stdout)
-			mr, e3 := periodRowMap(cmd, right.Stdout)
-			if e1 != nil || e2 != nil || e3 != nil {
-				x.Violate("C12|"+name+"|unparseable", fmt.Sprintf("%s: %v %v %v\n%s", edge, e1, e2, e3, whole.Stdout), nil)
-				return
-			}
-			sum := map[string][]*big.Rat{}
-			for _, m := range []map[string][]*big.Rat{ml, mr} {
-				for k, vs := range m {
-					if cur, ok := sum[k]; ok {
-						nv := make([]*big.Rat, len(vs))
-						for i := range vs {
-							nv[i] = new(big.Rat).Add(cur[i], vs[i])
-						}
-						sum[k] = nv
-					} else {
-						sum[k] = vs
-					}
+			H, b := hist[:k-1], hist[k-1:]
+			x.Case(fmt.Sprint(bi, hist), k >= 2)
+			edge := fmt.Sprintf("book %d, history %v + block %d", bi, H, b[0])
+			state := ""
+			for _, cmd := range c12PerDay {
+				whole, left, right := run(cmd, hist), run(cmd, H), run(cmd, b)
+				state += whole.Key()
+				name := strings.Join(cmd, " ")
+				if whole.Failed || left.Failed || right.Failed {
+					x.Violate("C12|"+name+"|failed", edge+": "+whole.String(), nil)
+					return
+				}
+				if whole.Stdout != left.Stdout+right.Stdout {
+					x.Violate("C12|"+name+"|not-concatenation", fmt.Sprintf("%s\n`%s` on the concatenated log:\n%s\non the history alone:\n%s\non the appended block alone:\n%s\nlog:\n%s", edge, name, whole.Stdout, left.Stdout, right.Stdout, text(hist)),
+						map[string]interface{}{"book": bookText, "log": text(hist), "history": H, "block": b[0], "cmd": name})
+					return
 				}
 			}
-			canon += name + ":" + rowMapString(mw) + ";"
-			if rowMapString(mw) != rowMapString(sum) {
-				x.Violate("C12|"+name+"|not-elementwise-sum", fmt.Sprintf("%s\n`%s` on the concatenated log: %s\nsum of the parts:            %s\nlog:\n%s", edge, name, rowMapString(mw), rowMapString(sum), text(hist)),
-					map[string]interface{}{"book": bookText, "log": text(hist), "history": H, "block": b[0], "cmd": name})
-				return
+			canon := ""
+			for _, cmd := range c12Period {
+				whole, left, right := run(cmd, hist), run(cmd, H), run(cmd, b)
+				name := strings.Join(cmd, " ")
+				if whole.Failed || left.Failed || right.Failed {
+					x.Violate("C12|"+name+"|failed", edge+": "+whole.String(), nil)
+					return
+				}
+				mw, e1 := periodRowMap(cmd, whole.Stdout)
+				ml, e2 := periodRowMap(cmd, left.Stdout)
+				mr, e3 := periodRowMap(cmd, right.Stdout)
+				if e1 != nil || e2 != nil || e3 != nil {
+					x.Violate("C12|"+name+"|unparseable", fmt.Sprintf("%s: %v %v %v\n%s", edge, e1, e2, e3, whole.Stdout), nil)
+					return
+				}
+				sum := map[string][]*big.Rat{}
+				for _, m := range []map[string][]*big.Rat{ml, mr} {
+					for k, vs := range m {
+						if cur, ok := sum[k]; ok {
+							nv := make([]*big.Rat, len(vs))
+							for i := range vs {
+								nv[i] = new(big.Rat).Add(cur[i], vs[i])
+							}
+							sum[k] = nv
+						} else {
+							sum[k] = vs
+						}
+					}
+				}
+				canon += name + ":" + rowMapString(mw) + ";"
+				if rowMapString(mw) != rowMapString(sum) {
+					x.Violate("C12|"+name+"|not-elementwise-sum", fmt.Sprintf("%s\n`%s` on the concatenated log: %s\nsum of the parts:            %s\nlog:\n%s", edge, name, rowMapString(mw), rowMapString(sum), text(hist)),
+						map[string]interface{}{"book": bookText, "log": text(hist), "history": H, "block": b[0], "cmd": name})
+					return
+				}
 			}
+			x.Obs(state, canon)
+			x.Note("period_state_"+fmt.Sprint(hash64([]byte(canon))%1000000007), 0)
+			x.Sample(map[string]interface{}{"book": bi, "history": H, "appended_block": b[0], "log": text(hist), "period_state": canon})
 		}
-		x.Obs(state, canon)
-		x.Note("period_state_"+fmt.Sprint(hash64([]byte(canon))%1000000007), 0)
-		x.Sample(map[string]interface{}{"book": bi, "history": H, "appended_block": b[0], "log": text(hist), "period_state": canon})
-	})
+	}
+	// the same edges with every run in a process of its own (the in-process driver would carry whatever one run keeps
+	// in package-level state over to the next, which is exactly what a separate invocation of the tool cannot do)
+	w.Explore("append-histories-one-process-per-run", ExploreOpts{ShardDepth: 3}, body(true, freshDepth))
+	w.Explore("append-histories", ExploreOpts{ShardDepth: 4}, body(false, depth))
 }
